@@ -165,6 +165,52 @@ def check_keyword_names(_job=None):
     return bad
 
 
+# single statements that look like construct openers: the header has nested parentheses, strings holding parentheses or a
+# continuation, and is followed by the controlled statement on the same line - none of them opens a scope
+ONELINERS = [
+    ("where:nested", ["where (abs(a) > maxval(b)) a = 0.0"]),
+    ("where:plain", ["where (a > 0.0) a = 0.0"]),
+    ("where:nested2", ["where ((abs(a(:)) > (maxval(b)))) a = 0.0"]),
+    ("where:continued", ["where (abs(a) > &", "       maxval(b)) a = 0.0"]),
+    ("if:nested", ["if (abs(a(n)) > max(1.0, b(1))) a(n) = 0.0"]),
+    ("if:string", ["if (len_trim('(') > min(1, n)) a(n) = 0.0"]),
+    ("if:call", ["if (any(a > (b(1)))) call after()"]),
+    ("forall:nested", ["forall (k = 1:size(a(:))) a(k) = 0.0"]),
+    ("forall:mask", ["forall (k = 1:4, abs(b(k)) > (0.0)) a(k) = 0.0"]),
+    ("do:oneline-if-inside", ["do k = 1, size(a)", "  if (abs(a(k)) > (0.0)) a(k) = 0.0", "end do"]),
+]
+
+
+def check_oneliners(_job=None):
+    bad = []
+    for tag, stmts in ONELINERS + [("all", [x for _t, st in ONELINERS for x in st])]:
+        lines = ["module olm", "  implicit none", "  real :: a(4), b(4)", "contains", "  subroutine ols(n)", "    integer, intent(in) :: n", "    integer :: k"]
+        lines += ["    " + x for x in stmts]
+        lines += ["  end subroutine ols", "  subroutine after()", "  end subroutine after", "end module olm"]
+        d = adapter.mkws({"o.f90": "\n".join(lines) + "\n"})
+        try:
+            s, c = adapter.mkserver(d)
+            adapter.did_open(s, c, d, "o.f90")
+            res = adapter.result_of(adapter.request(s, c, "textDocument/documentSymbol", {"textDocument": {"uri": adapter.uri(d, "o.f90")}}))
+            got = {(r["name"].lower(), (r.get("containerName") or "").lower(), r["location"]["range"]["start"]["line"], r["location"]["range"]["end"]["line"]) for r in (res or [])}
+            n = len(lines)
+            want = {("olm", "", 0, n - 1), ("ols", "olm", 4, n - 4), ("after", "olm", n - 3, n - 2)}
+            miss = sorted(want - got)
+            if miss:
+                bad.append(({"outline:oneLineStatement", "stmt:" + tag} | {"entry:" + w[0] for w in miss},
+                            {"expected": sorted(want), "observed": sorted(g for g in got if g[0] in ("olm", "ols", "after")), "lines": lines}))
+            ws = adapter.result_of(adapter.request(s, c, "workspace/symbol", {"query": "after"}))
+            if "after" not in {w["name"].lower() for w in (ws or [])}:
+                bad.append(({"wsym:set", "outline:oneLineStatement", "stmt:" + tag}, {"query": "after", "observed": [w["name"] for w in (ws or [])], "lines": lines}))
+            diags, exc = s.get_diagnostics(adapter.uri(d, "o.f90"))
+            errs = [x for x in (diags or []) if x.get("severity") == 1]
+            if exc is not None or errs:
+                bad.append(({"oneLineStatement:errorPublished", "stmt:" + tag}, {"diagnostics": errs[:5], "exception": repr(exc), "lines": lines}))
+        finally:
+            adapter.rmws(d)
+    return bad
+
+
 def main(tier, seed):
     ck = Check("C04", tier, seed)
     ck.assumptions = [
@@ -219,6 +265,17 @@ def main(tier, seed):
         for tags, detail in val:
             detail.update(kind="keywordNames")
             ck.violation(tags, detail)
+    # single statements that look like construct openers
+    for i, status, val in par.pmap(check_oneliners, [0], item_timeout=600):
+        ck.count(key="oneLiners")
+        if status != "done":
+            ck.violation({"replay:" + status, "oneLiners"}, {"kind": "oneLiners", "detail": val})
+            continue
+        ck.traces += 1
+        ck.note("one_line_statement_forms", len(ONELINERS))
+        for tags, detail in val:
+            detail.update(kind="oneLiners")
+            ck.violation(tags, detail)
     for p in progs[:: max(1, len(progs) // 3)][:3]:
         ck.sample({"source": fscopes.render(p["prog"]), "required_outline": [{k: (sorted(v) if isinstance(v, set) else v) for k, v in e.items()} for e in fscopes.expected_outline(p)]})
     return ck.finish()
@@ -226,6 +283,11 @@ def main(tier, seed):
 
 def replay(path):
     rec0 = json.load(open(path))
+    if rec0.get("kind") == "oneLiners":
+        res = check_oneliners()
+        for t, x in res:
+            print(sorted(t), json.dumps({k: v for k, v in x.items() if k != "lines"}, default=str)[:800])
+        return 1 if res else 0
     if rec0.get("kind") == "keywordNames":
         res = check_keyword_names()
         for t, x in res:
